@@ -397,6 +397,13 @@ def gen(rng: random.Random, tier: str):
     for shape, ops in CORPUS_HISTORIES:
         for sib, sub in (("1", "1"), ("1/2", "2"), ("3", "1/2")):
             cases.append(mk_case(shape, sib, sub, "1", "0", "0", tags=("corpus",), ops=ops))
+    # a WIDE parent (70 children, some with subtrees) and a DEEP chain (100 levels with side leaves)
+    wide_shape = [[] for _ in range(30)] + [[[[]]], [[]], [[[[]], []]]] + [[] for _ in range(37)]
+    def _chain(k):
+        return [] if k == 0 else ([_chain(k - 1), []] if k % 30 == 7 else [_chain(k - 1)])
+    for shape in (wide_shape, _chain(99), [wide_shape, [[]], wide_shape]):
+        for sib, sub in (("1", "1"), ("1/2", "2"), ("3", "1/2")):
+            cases.append(mk_case(shape, sib, sub, "1", "0", "1/2", tags=("corpus", "wide-or-deep")))
     # (a) exhaustive small shapes
     nmax = 7 if quick else 8
     for shape in core.all_shapes_upto(nmax):
